@@ -33,9 +33,9 @@ func main() {
 
 func run(c *core.Ctx) {
 	c.SetRule("cases run the real kafka input plugin in a real pipeline (2*GOMAXPROCS processors, spread mode as the plugin asks) against a loopback Kafka broker, one child process per case under -race. " +
-		"grid: topic lists of 1..4 distinct topics and lists that repeat a name ([a,a], [a,a,b], [a,b,a,c], ...) x every topic x partitions {0,1,255,65535} x offsets {0,1,2^16-1,2^16,2^16+1,2^31-1,2^31,2^31+1,2^47-1} x epochs {0,1,65535}, one record in flight, through the real partition consumers (complete enumeration); " +
+		"grid: topic lists of 1..4 distinct topics and lists that repeat a name ([a,a], [a,a,b], [a,b,a,c], ...) x every topic x partitions {0,1,255,65535} x offsets {0,1,2^16-1,2^16,2^16+1,2^31-1,2^31,2^31+1,2^47-1} x epochs {0,1,65534,65535}, one record in flight (there the marked head after each Commit must be exactly that record's offset+1 and epoch), through the real partition consumers (complete enumeration); " +
 		"inject: seeded concurrent hand-made fetches with extreme partitions/offsets/epochs; sched: seeded logs (1-4 topics x 1-4 partitions, 40% of the topics lists repeat a name with a distinct topic after the repetition, offset gaps, epoch bumps, empty/unparsable/oversize values, resumed-from-commit partitions) served by the broker through the real poll loop, script action delays/discards, batch size 1-8 x workers 1-4 x send delays, 2-16 processors; " +
-		"stop-early: the input plugin is stopped (Plugin.Stop commits the marked offsets) while slow events are in flight; directed: an earlier record is held in the action (d-spread) or in the output's send (d-output) until a later record of the partition has been committed / acknowledged. " +
+		"edge cases: epochs 65535/65534/1/0 on fresh partitions 0/1/255 (broker-fed, 256-partition topic) and 65535 (injected) at offsets 0.., 2^31+-1, ..2^47-1; split: 30% of sched cases, a third of inject cases and the split-edge cases run the chain [real split action, script] with records that carry an array of child objects, Topics[0]/0 empty or only at high offsets in the split-edge cases; every Commit call is attributed to a handed record by the id in its payload, a Commit for anything else (split child, unknown event) is a violation; stop-early: the input plugin is stopped (Plugin.Stop commits the marked offsets) while slow events are in flight; directed: an earlier record is held in the action (d-spread) or in the output's send (d-output) until a later record of the partition has been committed / acknowledged. " +
 		"Every marked head read after every Commit/In and every OffsetCommit received by the broker is judged (P1 packing, P2 frontier). distinct = configuration class x observed phenomena (completion inversions, refused records, resumed partitions, classes of frontier passes); non-trivial = at least one mark judged")
 	c.Assume("plan A of DESIGN §C10: Plugin.Start/NewClient/Ping/consumer group/PollRecords/auto-commit/Stop run unmodified against a loopback broker written from the Kafka protocol docs with franz-go's kmsg codec (single member, no rebalance, Fetch v6, no transactions); the franz-go client itself is trusted (forward-only marks ordered by (epoch, offset), auto-commit sends the marked heads)")
 	c.Assume("grid/inject cases feed hand-made kgo fetches to a second splitConsume built by the accessor plugin/input/kafka/verif_c10.go from the plugin's own fields (real Assigned + pconsumer.consume); the marks still go to the plugin's real client and from there to the broker")
@@ -71,6 +71,27 @@ func run(c *core.Ctx) {
 	}
 	for i := 0; i < c.N(5, 48); i++ {
 		cases = append(cases, stopEarlyCase(i, c.SubSeed("stop-early", i)))
+	}
+	// edges of the property's ranges on fresh partitions (first marks are always visible):
+	// leader epochs 65535 / 65534 / 1 / 0 x offsets 0.., 2^31+-1, ..2^47-1 x partitions 0, 1, 255 (broker-fed) and 65535 (injected)
+	for rep := 0; rep < c.N(1, 4); rep++ {
+		for k := 0; k < 4; k++ {
+			cases = append(cases, schedEdgeCase(k, c.SubSeed("sched-edge", rep*4+k)))
+		}
+		for plan := 1; plan <= 4; plan++ {
+			cases = append(cases, injectEdgeCase(plan, c.SubSeed("inject-edge", rep*4+plan)))
+		}
+		// the real split action with nothing (or only high offsets) on Topics[0]/0
+		for k := 0; k < 2; k++ {
+			cases = append(cases, splitEdgeCase(k, c.SubSeed("split-edge", rep*2+k)))
+		}
+	}
+	seenName := map[string]int{}
+	for i := range cases { // names are unique (replay selects by name)
+		seenName[cases[i].Name]++
+		if n := seenName[cases[i].Name]; n > 1 {
+			cases[i].Name = fmt.Sprintf("%s-r%d", cases[i].Name, n)
+		}
 	}
 	if p := c.ReplayArg(); p != "" {
 		// re-run only the case named in the witness, with a trace
@@ -165,6 +186,16 @@ func run(c *core.Ctx) {
 	}
 	for _, k := range []string{"grid", "inject", "sched"} {
 		need(k, "heads_judged_with_a_repeated_topic_in_the_topics_list", "marks judged in a case whose topics list names a topic more than once")
+	}
+	for _, k := range []string{"grid", "inject", "sched"} {
+		need(k, "marks_exact_epoch_65535", "a mark carrying leader epoch 65535 exactly")
+		need(k, "marks_exact_epoch_65534", "a mark carrying leader epoch 65534 exactly")
+		need(k, "marks_exact_epoch_0", "a mark carrying leader epoch 0")
+		need(k, "marks_exact_epoch_1", "a mark carrying leader epoch 1")
+	}
+	for _, k := range []string{"inject", "sched"} {
+		need(k, "commit_calls_event_kind_split-parent", "Commit of a record that went through the real split action")
+		need(k, "split_children_acked", "children of the split action acknowledged by the output")
 	}
 	need("grid", "final_broker_commit_equals_head", "the final committed offsets at the broker equal to the last marked heads")
 	need("sched", "final_broker_commit_equals_head", "the final committed offsets at the broker equal to the last marked heads")
